@@ -210,6 +210,9 @@ func Cert(r *core.Rand) rm.Cert {
 	default:
 		n = r.Pick(300)
 	}
+	if t == rm.CertKey && r.Chance(1, 3) {
+		n = r.Pick(9) // around the 4 bytes of the two key-type fields: 0..3 short, 4 exact, 5..8 surplus
+	}
 	return rm.Cert{Type: t, Payload: r.Bytes(n)}
 }
 
